@@ -443,6 +443,11 @@ class ExprMixin:
                     return base.items[idx.s]
                 raise RaiseSignal("KeyError", idx.s, node, frame)
             if isinstance(idx, StrV):
+                conc = self.concretize_str(idx, frame, node)
+                if conc is not None:
+                    if conc.s in base.items:
+                        return base.items[conc.s]
+                    raise RaiseSignal("KeyError", conc.s, node, frame)
                 # unknown key: may or may not be present
                 c = ("in", idx.path, tuple(sorted(base.items)))
                 self.ctx.event("dict-unknown-key", (idx.path, tuple(sorted(base.items))), frame.loc(node))
@@ -531,6 +536,39 @@ class ExprMixin:
         if isinstance(v, Opaque):
             return Rat.sym("len(%s)" % v.desc, ("nonneg", "int"))
         raise Unmodelled("len of %r at %s" % (v, frame.loc(node)))
+
+    def str_domain(self, path):
+        if path is None:
+            return None
+        d = self.cfg.str_domains.get(path)
+        if d is None:
+            for k, v in self.cfg.str_domains.items():
+                if k.startswith("*") and path.endswith(k[1:]):
+                    return v
+        return d
+
+    def concretize_str(self, v: StrV, frame, node):
+        """Fork an unknown string over its declared finite domain."""
+        v = self.resolve_maybe(v)
+        if v.s is not None:
+            return v
+        dom = self.str_domain(v.path)
+        if not dom:
+            return None
+        if v.path not in self.cfg.str_domains:
+            self.cfg.str_domains[v.path] = dom
+        for s in dom:
+            f = self.ctx.facts.get(v.path)
+            if isinstance(f, tuple) and f[0] == "str":
+                return StrV(f[1], v.path)
+            if isinstance(f, tuple) and f[0] == "notstr" and s in f[1]:
+                continue
+            if self.ctx.decide(("streq", v.path, s), frame.loc(node)):
+                return StrV(s, v.path)
+        f = self.ctx.facts.get(v.path)
+        if isinstance(f, tuple) and f[0] == "str":
+            return StrV(f[1], v.path)
+        return None
 
     # -- bound indices -------------------------------------------------------
     def fresh_bound(self):
